@@ -28,12 +28,20 @@ def worker(chk, pkg, index):
         if pr.gen_rc != 0:
             raise build.HarnessError("yardl rejected a packed package %s: %s" % (pkg.namespace, pr.gen_err[-600:]))
         if pr.cpp is None:
-            chk.extra["packages_not_compiled"] = 1
-            chk.extra["compile_errors"] = ["%s: %s" % (pkg.namespace, list(pr.cpp_errors.values())[0][:400])]
-            chk.exhaustive = False
+            first = list(pr.cpp_errors.values())[0]
+            chk.fail("cpp-does-not-compile/%s" % pkg.namespace, "generated C++ of an accepted package does not compile: %s" % first[:500],
+                     {"namespace": pkg.namespace, "errors": {k: v[:2000] for k, v in pr.cpp_errors.items()}})
             return
         eng = rtengine.Engine(chk, pr, k, max_exec=8 if tier == "quick" else 30, cap=40 if tier == "quick" else 300)
         eng.run(paths_binary=BIN, paths_json=JSON, skip_dates_for=cross_lang_json)
+        if pkg.namespace.startswith("Buf"):
+            eng.run_custom(rtengine.buffer_executions(pr, quick=(tier == "quick")), [[("py", "b2b", 1)], [("py", "b2b", 3), ("cpp", "b2b", 7)], [("cpp", "b2b", 1), ("py", "b2b", 2)], [("py", "b2n", 3), ("py", "n2b", 1)]])
+            chk.extra["packages"] = 1
+            chk.extra["protocols"] = len(pr.steps)
+            return
+        if pkg.namespace.startswith("Pat"):
+            pats = [p.name[1:].upper() for p in pkg.protocols]
+            eng.run_custom({"Q" + pt.lower(): shapes.pattern_executions(pt) for pt in pats}, BIN + JSON)
         chk.extra["packages"] = 1
         chk.extra["protocols"] = len(pr.steps)
     finally:
@@ -47,6 +55,8 @@ def main(tier):
     if tier == "quick":
         sh = sh[::2]
     packed = shapes.pack(sh, "Pk")
+    packed.append((shapes.pattern_package(4 if tier == "quick" else 5)[0], []))
+    packed.append((shapes.buffer_package()[0], []))
     chk.extra.update({"shapes": len(sh), "depth": d, "k": 1 if tier == "quick" else 2})
     roundtrip.run_packages(chk, packed, worker)
     chk.assumptions += ["MATLAB generated code cannot be executed here (its serialization plan is compared statically under C14)",
